@@ -7,7 +7,7 @@ import z3
 
 from . import builtins_model as bm
 from .engine import And, Engine, I, Implies, Not, Or, State, Unsupported
-from .values import BOOL, INT, OBJ, STR, SV, TRUE, FALSE, fresh_name, none_sv
+from .values import ForAllP, BOOL, INT, OBJ, STR, SV, TRUE, FALSE, fresh_name, none_sv
 
 
 def install(reg):
@@ -90,7 +90,7 @@ def install(reg):
             el = e.seq_get(xs, idx)
             return e.truthy(st, bm.apply_lambda(e, st, lam_node, [el]))
         same = lambda jj: And(*[z3.Select(a, jj) == z3.Select(b, emb(jj)) for a, b in zip(result.v.arrs, xs.v.arrs)])
-        f1 = z3.ForAll([j], Implies(And(j >= 0, j < m), And(emb(j) >= 0, emb(j) < n, same(j), P(emb(j)))))
-        f2 = z3.ForAll([j, j2], Implies(And(j >= 0, j < j2, j2 < m), emb(j) < emb(j2)))
-        f3 = z3.ForAll([i], Implies(And(i >= 0, i < n, P(i)), And(inv(i) >= 0, inv(i) < m, emb(inv(i)) == i)))
+        f1 = ForAllP([j], Implies(And(j >= 0, j < m), And(emb(j) >= 0, emb(j) < n, same(j), P(emb(j)))))
+        f2 = ForAllP([j, j2], Implies(And(j >= 0, j < j2, j2 < m), emb(j) < emb(j2)))
+        f3 = ForAllP([i], Implies(And(i >= 0, i < n, P(i)), And(inv(i) >= 0, inv(i) < m, emb(inv(i)) == i)))
         return SV(BOOL, And(m >= 0, m <= n, f1, f2, f3))
